@@ -286,6 +286,34 @@ impl<'a> ResolveContext<'a> {
         None
     }
 
+    /// A path may only go through a module that is not declared `pub` from inside the module
+    /// that declares it (or one of its descendants). Reports the first private module on the
+    /// path of `resolved_path` (a member path, its last segment is the member) that is not
+    /// accessible from the current module context.
+    fn check_module_path_visibility(&mut self, resolved_path: &[Symbol], loc: &Location) {
+        // modules at the top level are members of the root, which encloses every position
+        for k in 2..resolved_path.len() {
+            let module_path = &resolved_path[..k];
+            let mangled = module_path
+                .iter()
+                .map(|s| s.as_str())
+                .collect::<Vec<_>>()
+                .join("$")
+                .to_symbol();
+            let parent = &module_path[..k - 1];
+            if self.module_info.private_modules.contains(&mangled)
+                && !self.current_module_context.starts_with(parent)
+            {
+                self.errors.push(Error::PrivateMemberAccess {
+                    module_path: parent.to_vec(),
+                    member: module_path[k - 1],
+                    location: loc.clone(),
+                });
+                return;
+            }
+        }
+    }
+
     /// Check if the resolved path is within the same module hierarchy as current context.
     fn is_within_module_hierarchy(&self, resolved_path: &[Symbol]) -> bool {
         if self.current_module_context.is_empty() || resolved_path.len() < 2 {
@@ -625,6 +653,11 @@ fn convert_var(ctx: &mut ResolveContext, name: Symbol, loc: Location) -> ExprNod
     // Check if this is a use alias (explicit `use foo::bar` or `use foo::bar as alias`)
     if ctx.module_info.use_alias_map.contains_key(&name) {
         let mangled_name = resolve_alias_chain(ctx.module_info, name);
+        // the path written in the `use` statement (not the end of a chain of re-exports: a
+        // module may re-export members of its own private submodules)
+        if let Some(&written) = ctx.module_info.use_alias_map.get(&name) {
+            ctx.check_module_path_visibility(&extract_path_from_mangled(written), &loc);
+        }
         // Check visibility
         if let Some(&is_public) = ctx.module_info.visibility_map.get(&mangled_name)
             && !is_public
@@ -648,6 +681,7 @@ fn convert_var(ctx: &mut ResolveContext, name: Symbol, loc: Location) -> ExprNod
 
     // Try wildcard resolution
     if let Some(mangled) = ctx.resolve_through_wildcards(name) {
+        ctx.check_module_path_visibility(&extract_path_from_mangled(mangled), &loc);
         return Expr::Var(mangled).into_id(loc);
     }
 
@@ -690,6 +724,9 @@ fn convert_qualified_var(
 
     // Check if it's a re-exported alias
     let lookup_name = resolve_alias_chain(ctx.module_info, resolved_name);
+
+    // A path through a module that is not `pub` is only allowed from inside its parent
+    ctx.check_module_path_visibility(&resolved_path, &loc);
 
     // Check visibility for module members
     if resolved_path.len() > 1
